@@ -52,6 +52,13 @@ func TestGolden(t *testing.T) {
 		{"index", []Spec{{Pkg: "p", Recv: "Window", Name: "Index"}}},
 		{"page", []Spec{{Pkg: "p", Name: "Page"}}},
 		{"slice", []Spec{{Pkg: "p", Name: "Big", As: "bucketOf", Stmts: []string{"bucket := mid", "bucket -= bucket %"}}}},
+		{"le", []Spec{{Pkg: "p", Name: "Hdr"}, {Pkg: "p", Name: "Touch"}}}, // pulls in SetHdr
+		{"search", []Spec{{Pkg: "p", Name: "Lower"}, {Pkg: "p", Name: "Apply"}}},
+		{"pair", []Spec{{Pkg: "p", Name: "UsePair"}}}, // pulls in MkPair
+		{"gas", []Spec{{Pkg: "p", Name: "Halvings"}}},
+		{"short", []Spec{{Pkg: "p", Name: "Short"}}},
+		{"oracle", []Spec{{Pkg: "p", Name: "Scan", Oracles: []string{"Src.Len", "Src.At"}}}},
+		{"cond", []Spec{{Pkg: "p", Name: "Avg", As: "avgGuard", Stmts: []string{"if total == 0"}}}},
 	} {
 		text, missing := Generate(root(t), "X", c.specs)
 		if len(missing) > 0 {
@@ -64,11 +71,11 @@ func TestGolden(t *testing.T) {
 // Anything outside the fragment is refused with a reason and nothing is emitted for it.
 func TestRefused(t *testing.T) {
 	for name, why := range map[string]string{
-		"Float":  "type",
-		"Mutate": "only local variables can be assigned",
-		"While":  "loop shape",
-		"Rec":    "recursion",
-		"Short":  "right operand of && can panic",
+		"Float": "type",
+		"Map":   "non-slice",
+		"Spawn": "statement",
+		"Rec":   "recursion",
+		"Scan":  "no source", // an interface method, unless named as an oracle
 	} {
 		text, missing := Generate(root(t), "X", []Spec{{Pkg: "p", Name: name}})
 		if len(missing) != 1 || !strings.Contains(missing[0], why) {
